@@ -2,11 +2,13 @@ import Driver.Util
 import Driver.Silmerge
 import Driver.Sillife
 import Driver.Silencer
+import Driver.MutesRace
 -- engines of work area Silence: import your Driver.<Engine> modules above and list them here
 namespace Driver.Reg.Silence
 def engines : List (String × IO UInt32) := [
   ("silmerge", Driver.runEngine Driver.Silmerge.engine),
   ("sillife", Driver.runEngine Driver.Sillife.engine),
-  ("silencer", Driver.runEngine Driver.Silencer.engine)
+  ("silencer", Driver.runEngine Driver.Silencer.engine),
+  ("mutesrace", Driver.runEngine Driver.MutesRace.engine)
 ]
 end Driver.Reg.Silence
